@@ -24,6 +24,6 @@ func init() {
 		"TreeNodeInstance.dispatchHandler", "TreeNodeInstance.dispatchChannel", "TreeNodeInstance.dispatchMsgToProtocol",
 		"TreeNodeInstance.RegisterHandler", "TreeNodeInstance.RegisterChannelLength")
 	second("tree.go", "Tree.Search")
-	second("network/router.go", "Router.handleConn", "Router.Send")
+	second("network/router.go", "Router.handleConn", "Router.Send", "Router.receiveServerIdentity")
 	second("network/struct.go", "ServerIdentity.Equal")
 }
